@@ -18,9 +18,12 @@ inductive PathMod
 
 def endsSlash (s : List Char) : Bool := s.getLast? == some '/'
 
+/-- an empty replacement is rendered as `/` (both path modifier types; for ReplaceFullPath since b4791fc) -/
+def effectiveReplacement (r : List Char) : List Char := if r.isEmpty then ['/'] else r
+
 /-- regex and replacement of the prefix-match rewrite -/
 def prefixRewriteArgs (replacement path : List Char) : List Char × List Char :=
-  let fp := if replacement.isEmpty then ['/'] else replacement
+  let fp := effectiveReplacement replacement
   let regex :=
     if endsSlash fp && !endsSlash path then "^".toList ++ path ++ "(?:/([^?]*))?".toList
     else "^".toList ++ path ++ "([^?]*)?".toList
@@ -32,14 +35,15 @@ def prefixRewriteArgs (replacement path : List Char) : List Char × List Char :=
 /-- createMainRewriteForFilters -/
 def mainRewrite (m : PathMod) (path : List Char) : List Char :=
   match m with
-  | .full r => "^ ".toList ++ r
+  | .full r => "^ ".toList ++ effectiveReplacement r
   | .pfx r => let a := prefixRewriteArgs r path; a.1 ++ [' '] ++ a.2
 
-/-- candidate repair (notes/C04.md): an empty full-path replacement is rendered as `/` -/
-def mainRewriteRepaired (m : PathMod) (path : List Char) : List Char :=
+/-- createMainRewriteForFilters before commit b4791fc (empty full-path replacement rendered as nothing): kept
+for the regression witnesses -/
+def mainRewritePreFix (m : PathMod) (path : List Char) : List Char :=
   match m with
-  | .full [] => mainRewrite (.full ['/']) path
-  | m => mainRewrite m path
+  | .full r => "^ ".toList ++ r
+  | .pfx r => let a := prefixRewriteArgs r path; a.1 ++ [' '] ++ a.2
 
 /-- createRewritesValForRewriteFilter: MainRewrite of a URLRewrite filter -/
 def rewriteFilterMain (m : PathMod) (path : List Char) : List Char := mainRewrite m path ++ " break".toList
